@@ -652,6 +652,16 @@ int main(int argc, char **argv) {
       else
         oputs("-");
       oputs("\n");
+    } else if (!strcmp(c, "dumpoff")) {
+      /* the code [0, offset) as seen through the public getters */
+      long hi = asm_get_offset(x->al);
+      uint8_t *b = asm_get_code(x->al);
+      oputs("D ");
+      if (hi > 0)
+        ohex(b, (size_t)hi);
+      else
+        oputs("-");
+      oputs("\n");
     } else if (!strcmp(c, "sum")) {
       /* cheap fingerprint of [lo,hi) for long buffers (FNV-1a) */
       long lo = atol(tok[2]), hi = atol(tok[3]);
